@@ -120,6 +120,11 @@ func memoryLog(stack *Stack) (uint64, bool) {
 	return calcMemSize64(stack.Back(0), stack.Back(1))
 }
 
+// AUTH reads the signature and the commit from memory[offset, offset+length)
+func memoryAuth(stack *Stack) (uint64, bool) {
+	return calcMemSize64(stack.Back(1), stack.Back(2))
+}
+
 func memoryAuthCall(stack *Stack) (uint64, bool) {
 	x, overflow := calcMemSize64(stack.Back(7), stack.Back(8))
 	if overflow {
